@@ -71,6 +71,10 @@ def check(prog: Program, run: Run) -> None:
              floor=100)
     run.rule("C11.G7", "parsers read every optional element on its own: what feeds one field is "
              "not skipped because another field's element is present", floor=100)
+    run.rule("C11.R8", "integer texts are converted exactly: the converter of A_INT32 / A_UINT32 "
+             "returns int(text, 0) whenever that succeeds; float() is only the fallback",
+             floor=2)
+    _exact_integers(prog, run)
     tm = TemplateModel(prog.repo)
     pt = parser_table(prog)
     run.info("templates", len(tm.templates))
@@ -99,6 +103,60 @@ def check(prog: Program, run: Run) -> None:
     # xsd:choice groups of the ODX schema: exactly one of the elements occurs
     common.g7_independent_elements(prog, run, "C11.G7", ["odxtools/*.py", "odxtools/**/*.py"],
                                    choices=[{"OUT-PARAM-IF-SNREF", "OUT-PARAM-IF-SNPATHREF"}])
+
+
+def _exact_integers(prog: Program, run: Run) -> None:
+    """The writer emits integers in full (`{{ value }}` of a python int); reading them back
+    through float() rounds everything beyond 2**53 (and accepts '1e3', 'nan' ...)."""
+    R = "C11.R8"
+    mod = prog.module("odxtools.odxtypes")
+    table = None
+    for st in mod.tree.body:
+        t = st.targets[0] if isinstance(st, ast.Assign) else getattr(st, "target", None)
+        if isinstance(st, (ast.Assign, ast.AnnAssign)) and isinstance(t, ast.Name) and \
+                t.id == "_PARSE_ODX_TYPE" and isinstance(st.value, ast.Dict):
+            table = st.value
+    if table is None:
+        raise AnalysisError("odxtypes._PARSE_ODX_TYPE not found")
+    conv: Dict[str, str] = {}
+    for k, v in zip(table.keys, table.values):
+        if isinstance(k, ast.Constant):
+            conv[k.value] = ast.unparse(v)
+    for tname in ("A_INT32", "A_UINT32"):
+        fn = conv.get(tname)
+        f = prog.func(f"odxtools.odxtypes:{fn}") if fn and fn.isidentifier() and any(
+            g.name == fn and g.cls is None and g.module is mod for g in prog.iter_functions()) \
+            else None
+        if f is None:
+            if fn == "int":
+                run.ok(R, f"_PARSE_ODX_TYPE[{tname}]", "int()", f"{mod.rel}:{table.lineno}")
+            else:
+                run.violation(R, f"_PARSE_ODX_TYPE[{tname}]", "converter",
+                              f"integers of type {tname} are converted with `{fn}`, which is "
+                              "not an integer parser", f"{mod.rel}:{table.lineno}")
+            continue
+        p = f.params()[0]
+        exact = [t for t in walk_no_nested(f.node) if isinstance(t, ast.Try) and t.body and
+                 isinstance(t.body[0], (ast.Return, ast.Assign)) and isinstance(
+                     t.body[0].value, ast.Call) and
+                 call_name(t.body[0].value) == "int" and t.body[0].value.args and
+                 ast.unparse(t.body[0].value.args[0]) == p]
+        floats = [x for x in walk_no_nested(f.node) if isinstance(x, ast.Call) and
+                  call_name(x) == "float"]
+        direct = [r for r in f.node.body if isinstance(r, ast.Return) and isinstance(
+            r.value, ast.Call) and call_name(r.value) == "int" and r.value.args and
+                  ast.unparse(r.value.args[0]) == p]
+        inside = all(any(any(y is x for s_ in h.body for y in ast.walk(s_))
+                         for t in exact for h in t.handlers) for x in floats)
+        if (exact and inside) or (direct and not floats):
+            run.ok(R, f"{fn}[{tname}]", f"returns int({p}, ...) when that succeeds; float() only "
+                   "in its handler", f.loc)
+        else:
+            run.violation(R, f"{fn}[{tname}]", "integer-through-float",
+                          f"{fn} does not return int({p}, 0) first: an integer text is routed "
+                          "through float(), which rounds values beyond 2**53 -- limits, "
+                          "constants and coded values of the written database come back "
+                          "altered", f.loc)
 
 
 # ----------------------------------------------------------------------- R0
